@@ -100,7 +100,8 @@ fn in_any(ranges: &[(usize, usize)], a: usize, b: usize) -> bool {
 }
 
 struct Case { fmt: &'static str, name: &'static str, fixture: &'static str }
-const CASES: [Case; 14] = [
+const CASES: [Case; 15] = [
+    Case { fmt: "image/jpeg", name: "jpeg_rst2", fixture: "IMG_0003.jpg" }, // restart markers, different encoder
     Case { fmt: "image/jpeg", name: "jpeg_rst", fixture: "earth_apollo17.jpg" }, // restart intervals (DRI / RSTn markers)
     Case { fmt: "image/jpeg", name: "jpeg", fixture: "no_manifest.jpg" }, Case { fmt: "image/png", name: "png", fixture: "libpng-test.png" },
     Case { fmt: "image/gif", name: "gif", fixture: "sample1.gif" }, Case { fmt: "image/webp", name: "webp", fixture: "sample1.webp" },
